@@ -14,7 +14,7 @@ Definition mxsz (s s' : shared) : Prop :=
 Lemma mxsz_refl s : mxsz s s. Proof. split; [reflexivity|lia]. Qed.
 Lemma mxsz_trans a b c : mxsz a b -> mxsz b c -> mxsz a c.
 Proof. intros [A1 A2] [B1 B2]. split; [congruence|lia]. Qed.
-Lemma keeps_mxsz s s' : keeps s s' -> mxsz s s'.
+Lemma keeps_mxsz s s' : keeps_nk s s' -> mxsz s s'.
 Proof. intros K. split; [apply K|now apply keeps_size]. Qed.
 
 Lemma size_insert_existing (m : gmap str user) n u u' : m !! n = Some u -> size (<[n := u']> m) = size m.
@@ -109,7 +109,7 @@ Proof.
       unfold process_mode in H. rewrite Ho in H. cbn [rbind] in H. destruct (validate_channel target).
       * destruct (chans s !! target) as [co|]; [|injection H as <-; apply mxsz_refl].
         destruct (ch_users co !! nick) as [rk|]; [|injection H as <-; apply mxsz_refl].
-        apply keeps_mxsz. eapply mode_channel_keeps; eauto.
+        apply keeps_mxsz, keeps_weaken. eapply mode_channel_keeps; eauto.
       * destruct (bool_decide (nick = target)); [eapply mode_user_mxsz; eauto|].
         destruct (users s !! target); injection H as <-; apply mxsz_refl.
   - (* every other command keeps records and mark: ModesFrame *)
@@ -131,13 +131,13 @@ Proof.
     + injection H as <-. apply mxsz_refl.
     + injection H as <-. apply mxsz_refl.
     + injection H as <-. apply mxsz_refl.
-    + apply keeps_mxsz. eapply join_keeps; eauto.
-    + apply keeps_mxsz. eapply part_keeps; eauto.
-    + apply keeps_mxsz. eapply topic_keeps; eauto.
+    + apply keeps_mxsz, keeps_weaken. eapply join_keeps; eauto.
+    + apply keeps_mxsz, keeps_weaken. eapply part_keeps; eauto.
+    + apply keeps_mxsz, keeps_weaken. eapply topic_keeps; eauto.
     + eapply S2; [|exact H]. now apply process_names_ok.
     + unfold process_list in H. destruct server; eapply S3; exact H.
-    + apply keeps_mxsz. eapply invite_keeps; eauto.
-    + apply keeps_mxsz. eapply kick_keeps; eauto.
+    + apply keeps_mxsz, keeps_weaken. eapply invite_keeps; eauto.
+    + apply keeps_mxsz, keeps_weaken. eapply kick_keeps; eauto.
     + unfold process_motd in H. destruct target; eapply S3; exact H.
     + unfold process_version in H. destruct target; eapply S3; exact H.
     + unfold process_admin in H. destruct target; eapply S3; exact H.
@@ -158,7 +158,7 @@ Proof.
     + eapply S3; exact H.
     + eapply S3; exact H.
     + unfold process_squit in H. destruct (bool_decide _); [apply keeps_mxsz; eapply die_keeps; eauto|eapply S3; exact H].
-    + apply keeps_mxsz. eapply away_keeps; eauto.
+    + apply keeps_mxsz, keeps_weaken. eapply away_keeps; eauto.
     + eapply S3; exact H.
     + eapply S2; [|exact H]. now apply process_wallops_ok.
     + eapply S3; exact H.
